@@ -74,9 +74,19 @@ def rule_read_paths(ctx: Ctx) -> None:
                         ok = len(f) == 1 and f[0].op == "is" and f[0].b == "_TOMBSTONE" and isinstance(v.body, ast.Constant) and v.body.value is None and path_of(v.orelse) == f[0].a
                     else:
                         name = path_of(v)
-                        ok = name is not None and ff.holds_at(node_of(ff.cfg, st), Fact("isnot", name, "_TOMBSTONE")) and ff.holds_at(node_of(ff.cfg, st), Fact("isnot", name, "None"))
+                        # (the value may legitimately be None: a key stored with the value None is a hit, see the membership clause below)
+                        ok = name is not None and ff.holds_at(node_of(ff.cfg, st), Fact("isnot", name, "_TOMBSTONE"))
                     if not ok:
                         bad.append(norm_stmt(st))
+            # a step falls through to *older* data only when this table does not hold the key at all: a `None` read back is confirmed by an
+            # exact membership test (a key stored with the value None must shadow older values, as a tombstone does)
+            hit_tests = [t_ for t_ in walk_stmts(fn.node.body) if isinstance(t_, ast.If) and isinstance(t_.test, ast.BoolOp) and isinstance(t_.test.op, ast.Or)
+                         and any({f.sig for f in atoms(v_, True)} in ({("isnot", "value", "None")}, {("isnot", "result", "None")}) for v_ in t_.test.values)]
+            plain = [t_ for t_ in walk_stmts(fn.node.body) if isinstance(t_, ast.If) and {f.sig for f in atoms(t_.test, True)} in ({("isnot", "value", "None")}, {("isnot", "result", "None")})]
+            okm = len(hit_tests) == 3 and not plain and all(any(isinstance(v_, ast.Call) and isinstance(v_.func, ast.Attribute) and v_.func.attr in ("contains", "has_key") and [path_of(a_) for a_ in v_.args] == ["key"]
+                                                                  for v_ in t_.test.values) for t_ in hit_tests)
+            ctx.ob("C14-1", "G1", fn, "a None read back is a miss only if the key is absent", okm, f"{q}: each of the three lookup steps (memtable, immutables, SSTables) treats `None` as a miss only after an exact "
+                   f"membership test of that table ({len(hit_tests)} guarded, {len(plain)} unguarded)")
             ctx.ob("C14-1", "G1", fn, "every hit passes the tombstone filter", not bad and n_ret >= 3, f"{q}: a found value is returned only after the tombstone→None mapping ({n_ret} hit returns)" + ("" if not bad else f" — unfiltered: {bad}"))
         else:
             merged_guard = [s for s in walk_stmts(fn.node.body) if isinstance(s, ast.Assign) and unparse(s.targets[0]).replace(" ", "") == "merged[k]"]
@@ -161,6 +171,26 @@ def rule_compaction(ctx: Ctx) -> None:
         drops = [s for s in walk_stmts(fn.node.body) if isinstance(s, ast.Assign) and path_of(s.targets[0]) == "merged_data" and "is not _TOMBSTONE" in unparse(s.value)]
         okd = len(drops) == 1 and ff.holds_at(node_of(ff.cfg, drops[0]), Fact("eq", "self._max_levels - 1", "target_level")) or (len(drops) == 1 and ff.holds_at(node_of(ff.cfg, drops[0]), Fact("eq", "target_level", "self._max_levels - 1")))
         ctx.ob("C14-5", "G1", fn, drops[0] if drops else None, bool(okd), f"{q}: tombstones are discarded only when compacting into the deepest level (nothing older can lie beneath)")
+        # where the merged table goes: into a *deeper* level it is the newest table there (append); when source and target level coincide
+        # (max_levels == 1, or the deepest level compacting into itself) and the function suspended since it picked its inputs, whatever
+        # else is in the level by now was flushed during the suspension and is newer — the merged table goes in front of it
+        if fn.is_generator:
+            inst_nodes = [n_ for n_ in ff.cfg.nodes if n_.kind == "stmt" and any(unparse(k.func).replace(" ", "") in ("self._levels[target_level].append", "self._levels[target_level].insert") for k in calls_in(n_.ast))]
+            bad_i = []
+            for p_ in enumerate_paths(ff, ff.cfg.entry):
+                if p_.end != "exit":
+                    continue
+                ins = [n_ for n_ in p_.nodes if any(n_ is x for x in inst_nodes)]
+                if not ins:
+                    continue
+                same = p_.decided(lambda t: t in ("target_level==source_level", "source_level==target_level"))
+                call = [k for k in calls_in(ins[0].ast) if unparse(k.func).replace(" ", "").startswith("self._levels[target_level].")][0]
+                front = call.func.attr == "insert" and isinstance(call.args[0], ast.Constant) and call.args[0].value == 0
+                if len(ins) != 1 or (same is True and not front) or (same is False and front) or same is None:
+                    bad_i.append(f"[{p_.describe()[-90:]}] installs with `{unparse(call)[:50]}`")
+            ctx.ob("C14-2", "G4", fn, inst_nodes[0].ast if inst_nodes else None, bool(inst_nodes) and not bad_i,
+                   f"{q}: the merged table is appended to a deeper level but inserted at the front when it stays in its own level (tables flushed during the compaction's suspension are newer)"
+                   + ("" if not bad_i else " — " + bad_i[0]))
         # replaced tables are removed and the merged table installed with no suspension in between
         inst = [c for c in calls_in(fn.node) if unparse(c.func).replace(" ", "") == "self._levels[target_level].append"]
         rems = [c for c in calls_in(fn.node) if unparse(c.func).replace(" ", "").endswith("].remove") and "self._levels" in unparse(c.func)]
@@ -356,6 +386,8 @@ def run(ctx: Ctx) -> None:
 
 
 MUTANTS = [
+    ("same-level-compaction-appends", LSM, "                self._levels[target_level].insert(0, new_sst)\n", "                self._levels[target_level].append(new_sst)\n", "C14-2"),
+    ("lsm-get-none-falls-through", LSM, "        if value is not None or self._memtable.contains(key):\n            self._total_read_hits += 1\n            if value is _TOMBSTONE:\n                return None\n            return value\n\n        # Check immutable memtables\n        for imm in reversed(self._immutable_memtables):\n            value = imm.get_sync(key)\n            if value is not None or imm.contains(key):\n                self._total_read_hits += 1\n                if value is _TOMBSTONE:\n                    return None\n                return value\n\n        # Check each level, L0 first (most recent). Iterate", "        if value is not None:\n            self._total_read_hits += 1\n            if value is _TOMBSTONE:\n                return None\n            return value\n\n        # Check immutable memtables\n        for imm in reversed(self._immutable_memtables):\n            value = imm.get_sync(key)\n            if value is not None or imm.contains(key):\n                self._total_read_hits += 1\n                if value is _TOMBSTONE:\n                    return None\n                return value\n\n        # Check each level, L0 first (most recent). Iterate", "C14-1"),
     ("compaction-resorts-selection-by-sequence", LSM, "        # Merge all selected SSTables\n        # Process from oldest to newest so newer values win\n", "        # Merge all selected SSTables\n        sstables = sorted(sstables, key=lambda sst: sst.sequence)\n", "C14-2"),
     ("memtable-put-applies-after-latency", MEMT, "        self._data[key] = value\n        self._total_writes += 1\n        self._total_bytes_written += 64  # estimate\n        yield self._write_latency\n", "        self._total_writes += 1\n        self._total_bytes_written += 64  # estimate\n        yield self._write_latency\n        self._data[key] = value\n", "C14-3"),
     ("before-image-skipped-for-new-keys", TXN, "            before_images[key] = self._manager._store.get_sync(key)", "            if self._manager._store.get_sync(key) is not None:\n                before_images[key] = self._manager._store.get_sync(key)", "C14-6"),
@@ -363,11 +395,11 @@ MUTANTS = [
     ("btree-delete-routes-left", BT, "        while not node.leaf:\n            idx = bisect.bisect_right(node.keys, key)\n            node = node.children[idx]\n\n        idx = bisect.bisect_left(node.keys, key)\n        if idx < len(node.keys) and node.keys[idx] == key:\n            node.keys.pop(idx)", "        while not node.leaf:\n            idx = bisect.bisect_left(node.keys, key)\n            node = node.children[idx]\n\n        idx = bisect.bisect_left(node.keys, key)\n        if idx < len(node.keys) and node.keys[idx] == key:\n            node.keys.pop(idx)", "C14-8"),
     ("snapshot-scan-before-store-read", TXN, ["        # Read from underlying store\n        value = yield from self._manager._store.get(key)\n        if self._isolation", "                    return entry.before_images[key]\n        return value"],
      ["        if self._isolation", "                    return entry.before_images[key]\n        value = yield from self._manager._store.get(key)\n        return value"], "C14-6"),
-    ("get-immutables-oldest-first", LSM, "        # Check immutable memtables\n        for imm in reversed(self._immutable_memtables):\n            value = imm.get_sync(key)\n            if value is not None:\n                self._total_read_hits += 1\n                if value is _TOMBSTONE:",
-     "        # Check immutable memtables\n        for imm in self._immutable_memtables:\n            value = imm.get_sync(key)\n            if value is not None:\n                self._total_read_hits += 1\n                if value is _TOMBSTONE:", "C14-1"),
+    ("get-immutables-oldest-first", LSM, "        # Check immutable memtables\n        for imm in reversed(self._immutable_memtables):\n            value = imm.get_sync(key)\n            if value is not None or imm.contains(key):\n                self._total_read_hits += 1\n                if value is _TOMBSTONE:",
+     "        # Check immutable memtables\n        for imm in self._immutable_memtables:\n            value = imm.get_sync(key)\n            if value is not None or imm.contains(key):\n                self._total_read_hits += 1\n                if value is _TOMBSTONE:", "C14-1"),
     ("get-sstables-oldest-first", LSM, "            # L0: check all SSTables (may have overlapping key ranges)\n            for sstable in reversed(level):", "            # L0: check all SSTables (may have overlapping key ranges)\n            for sstable in level:", "C14-1"),
-    ("get-returns-tombstone", LSM, "                if result is not None:\n                    self._total_read_hits += 1\n                    if result is _TOMBSTONE:\n                        return None\n                    return result", "                if result is not None:\n                    self._total_read_hits += 1\n                    return result", "C14-1"),
-    ("get-sync-levels-before-immutables", LSM, "        for imm in reversed(self._immutable_memtables):\n            value = imm.get_sync(key)\n            if value is not None:\n                self._total_read_hits += 1\n                return None if value is _TOMBSTONE else value\n", "", "C14-1"),
+    ("get-returns-tombstone", LSM, "                if result is not None or sstable.has_key(key):\n                    self._total_read_hits += 1\n                    if result is _TOMBSTONE:\n                        return None\n                    return result", "                if result is not None or sstable.has_key(key):\n                    self._total_read_hits += 1\n                    return result", "C14-1"),
+    ("get-sync-levels-before-immutables", LSM, "        for imm in reversed(self._immutable_memtables):\n            value = imm.get_sync(key)\n            if value is not None or imm.contains(key):\n                self._total_read_hits += 1\n                return None if value is _TOMBSTONE else value\n", "", "C14-1"),
     ("scan-last-wins", LSM, "                for k, v in sstable.scan(start_key, end_key):\n                    if k not in merged:\n                        merged[k] = v", "                for k, v in sstable.scan(start_key, end_key):\n                    merged[k] = v", "C14-1"),
     ("scan-keeps-tombstones", LSM, "        result = [(k, v) for k, v in sorted(merged.items()) if v is not _TOMBSTONE]", "        result = [(k, v) for k, v in sorted(merged.items())]", "C14-1"),
     ("flush-publishes-after-latency", LSM, ["        self._levels[0].append(sstable)\n\n        # Write latency for creating SSTable on disk", "            return\n\n        self._total_memtable_flushes += 1\n"],
